@@ -24,6 +24,7 @@ import oracle
 from ser import Ids, Ser, Unsupported, Deser, parse_sexp, rat, bits_to_float
 
 LEAN_MODULE = "Optyx.Props.C03"
+EXTRA_MODULES = ["Optyx.Props.PinsC03"]   # transcription anchors (harness/source_pins.py)
 THEOREMS = [
     "Optyx.Props.Closures.closureTables_agree",
     "Optyx.Props.Closures.sanitizeShape_agrees",
@@ -36,6 +37,7 @@ THEOREMS = [
     "Optyx.Props.C03.compileGradient_entries",
     "Optyx.Props.C03.compileJacobian_true_partial",
     "Optyx.Props.C03.compileGradient_true_partial",
+    "Optyx.Props.PinsC03.anchors",
 ]
 ASSUMPTIONS = [
     "entries are compared with Py.grad (the C02 theorem turns them into true partial derivatives at regular points)",
